@@ -80,6 +80,13 @@ func CalleeObj(c *ssa.CallCommon) *types.Func {
 
 var globalFuncCache = map[*ssa.Global]*ssa.Function{}
 
+// ResetCaches drops the memo tables keyed by SSA objects.  The checker self-test loads one
+// program per seeded change; without this every one of them stays reachable (a Global leads to
+// its whole ssa.Program) and a property with many seeds needs tens of gigabytes.
+func ResetCaches() {
+	globalFuncCache = map[*ssa.Global]*ssa.Function{}
+}
+
 func globalFuncValue(g *ssa.Global) *ssa.Function {
 	if f, ok := globalFuncCache[g]; ok {
 		return f
